@@ -543,3 +543,286 @@ Proof. unfold str_comp. now rewrite str_cmp_code_points. Qed.
 Corollary str_ci_comp_spec o x y :
   str_ci_comp o x y = cmp_holds o (lex_cmp (str_to_lowercase x) (str_to_lowercase y)).
 Proof. unfold str_ci_comp. now rewrite str_cmp_code_points. Qed.
+
+(* ======================================================= the VM level: stack *)
+Lemma list_get_eq {A} (l : list A) i : list_get l i = nth_error l (N.to_nat i).
+Proof. destruct l; reflexivity. Qed.
+
+Lemma list_set_nat_length {A} (l : list A) : forall i a, length (list_set_nat l i a) = length l.
+Proof. induction l as [|x l IH]; intros [|i] a; cbn; auto. Qed.
+
+Lemma list_set_nat_same {A} (l : list A) : forall i a,
+  (i < length l)%nat -> nth_error (list_set_nat l i a) i = Some a.
+Proof.
+  induction l as [|x l IH]; intros [|i] a H; cbn in *; try lia; auto. apply IH; lia.
+Qed.
+
+Lemma list_set_nat_other {A} (l : list A) : forall i j a,
+  i <> j -> nth_error (list_set_nat l i a) j = nth_error l j.
+Proof.
+  induction l as [|x l IH]; intros [|i] [|j] a H; cbn; auto; try congruence.
+Qed.
+
+Definition stack_ok (s : vm) : Prop := sp s < len (stack s).
+
+(* the values on top of the stack, topmost first *)
+Definition top_is (s : vm) (vs : list vcell) : Prop :=
+  N.of_nat (length vs) <= sp s /\
+  forall k v, nth_error vs k = Some v -> list_get (stack s) (sp s - N.of_nat k) = Some v.
+
+(* what a builtin may change: only the string/vector store and the stack pointer *)
+Definition same_but_sp (s s' : vm) : Prop :=
+  st s' = st s /\ hp s' = hp s /\ stack s' = stack s.
+
+Lemma top_is_nil s : top_is s [].
+Proof. split; [cbn; lia|]. intros [|k] v H; discriminate. Qed.
+
+Lemma push_spec s v vs :
+  stack_ok s -> top_is s vs ->
+  exists s1, push v s = ROk tt s1 /\ stack_ok s1 /\ top_is s1 (v :: vs) /\
+             st s1 = st s /\ hp s1 = hp s /\ sp s1 = sp s + 1.
+Proof.
+  intros Hok [Hlen Htop]. unfold stack_ok in Hok. unfold push.
+  set (l := if sp s + 1 <? len (stack s) then stack s else stack_grow (stack s)).
+  assert (Hl : sp s + 1 < len l).
+  { unfold l. destruct (N.ltb_spec (sp s + 1) (len (stack s))) as [H|H]; [exact H|].
+    unfold stack_grow. rewrite len_length, app_length, repeat_length.
+    rewrite len_length in Hok, H. lia. }
+  assert (Hpre : forall i, i <= sp s -> list_get l i = list_get (stack s) i).
+  { intros i Hi. unfold l. destruct (sp s + 1 <? len (stack s)); [reflexivity|].
+    unfold stack_grow. rewrite !list_get_eq. apply nth_error_app1.
+    rewrite len_length in Hok. lia. }
+  eexists. split; [reflexivity|].
+  rewrite len_length in Hl.
+  repeat split; cbn [sp stack st hp with_stack].
+  - unfold stack_ok. cbn [sp stack with_stack]. unfold list_set.
+    rewrite len_length, list_set_nat_length. lia.
+  - cbn [length]. lia.
+  - intros k w Hk. unfold list_set. rewrite list_get_eq.
+    destruct k as [|k]; cbn [nth_error] in Hk.
+    + inversion Hk; subst. replace (sp s + 1 - N.of_nat 0) with (sp s + 1) by (cbn; lia).
+      apply list_set_nat_same. lia.
+    + assert (Hk' : (k < length vs)%nat) by (apply nth_error_Some; congruence).
+      rewrite list_set_nat_other by lia.
+      rewrite <- list_get_eq, Hpre by lia.
+      replace (sp s + 1 - N.of_nat (S k)) with (sp s - N.of_nat k) by lia.
+      now apply Htop.
+Qed.
+
+Lemma pop_raw_top s v vs :
+  top_is s (v :: vs) ->
+  pop_raw s = ROk v (with_sp s (sp s - 1)) /\ top_is (with_sp s (sp s - 1)) vs.
+Proof.
+  intros [Hlen Htop]. cbn [length] in Hlen. unfold pop_raw.
+  replace (sp s =? 0) with false by (symmetry; apply N.eqb_neq; lia).
+  pose proof (Htop 0%nat v eq_refl) as H0. replace (sp s - N.of_nat 0) with (sp s) in H0 by (cbn; lia).
+  rewrite H0. split; [reflexivity|].
+  split; cbn [sp stack with_sp with_stack]; [lia|].
+  intros k w Hk. replace (sp s - 1 - N.of_nat k) with (sp s - N.of_nat (S k)) by lia.
+  now apply Htop.
+Qed.
+
+Definition pop1 (s : vm) : vm := with_sp s (sp s - 1).
+
+Lemma bindM_ok {A B} (m : M A) (f : A -> M B) s a s' : m s = ROk a s' -> bindM m f s = f a s'.
+Proof. intro H. unfold bindM. now rewrite H. Qed.
+
+Lemma bindM_err {A B} (m : M A) (f : A -> M B) s e msg s' :
+  m s = RErr e msg s' -> bindM m f s = RErr e msg s'.
+Proof. intro H. unfold bindM. now rewrite H. Qed.
+
+Lemma pop_argc_top s n vs mn mx :
+  top_is s (VArgc n :: vs) ->
+  pop_argc mn mx s =
+    (if (n <? mn) || match mx with Some m => m <? n | None => false end
+     then RErr E_OTHER [] (pop1 s) else ROk n (pop1 s))
+  /\ top_is (pop1 s) vs.
+Proof.
+  intro H. destruct (pop_raw_top _ _ _ H) as [Hp Ht]. split; [|exact Ht].
+  unfold pop_argc. rewrite (bindM_ok _ _ _ _ _ Hp).
+  now destruct ((n <? mn) || match mx with Some m => m <? n | None => false end).
+Qed.
+
+Definition imm (v : vcell) : Prop := match v with VPtr _ => False | _ => True end.
+
+Lemma pop_value_top s v vs :
+  top_is s (v :: vs) -> imm v -> pop_value s = ROk v (pop1 s) /\ top_is (pop1 s) vs.
+Proof.
+  intros H Hi. destruct (pop_raw_top _ _ _ H) as [Hp Ht]. split; [|exact Ht].
+  unfold pop_value, pop_deref. rewrite (bindM_ok _ _ _ _ _ Hp).
+  unfold hderef, lift. destruct v; cbn in *; try reflexivity. contradiction.
+Qed.
+
+Definition as_string (v : vcell) : option N := match v with VStr sid => Some sid | _ => None end.
+Definition as_char (v : vcell) : option cp := match v with VChar c => Some c | _ => None end.
+Definition as_number (v : vcell) : option num := match v with VNum n => Some n | _ => None end.
+Definition as_index (v : vcell) : option N :=
+  match v with VNum n => num_to_usize n | _ => None end.
+
+Definition opt_res {A} (o : option A) (s : vm) : res A :=
+  match o with Some a => ROk a s | None => RErr E_OTHER [] s end.
+
+Lemma pop_string_top s v vs :
+  top_is s (v :: vs) -> imm v ->
+  pop_string s = opt_res (as_string v) (pop1 s) /\ top_is (pop1 s) vs.
+Proof.
+  intros H Hi. destruct (pop_value_top _ _ _ H Hi) as [Hp Ht]. split; [|exact Ht].
+  unfold pop_string. rewrite (bindM_ok _ _ _ _ _ Hp). now destruct v.
+Qed.
+
+Lemma pop_char_top s v vs :
+  top_is s (v :: vs) -> imm v ->
+  pop_char s = opt_res (as_char v) (pop1 s) /\ top_is (pop1 s) vs.
+Proof.
+  intros H Hi. destruct (pop_value_top _ _ _ H Hi) as [Hp Ht]. split; [|exact Ht].
+  unfold pop_char. rewrite (bindM_ok _ _ _ _ _ Hp). now destruct v.
+Qed.
+
+Lemma pop_number_top s v vs :
+  top_is s (v :: vs) -> imm v ->
+  pop_number s = opt_res (as_number v) (pop1 s) /\ top_is (pop1 s) vs.
+Proof.
+  intros H Hi. destruct (pop_value_top _ _ _ H Hi) as [Hp Ht]. split; [|exact Ht].
+  unfold pop_number. rewrite (bindM_ok _ _ _ _ _ Hp). now destruct v.
+Qed.
+
+Lemma pop_index_top s v vs :
+  top_is s (v :: vs) -> imm v ->
+  pop_index s = opt_res (as_index v) (pop1 s) /\ top_is (pop1 s) vs.
+Proof.
+  intros H Hi. destruct (pop_value_top _ _ _ H Hi) as [Hp Ht]. split; [|exact Ht].
+  unfold pop_index. rewrite (bindM_ok _ _ _ _ _ Hp).
+  destruct v; try reflexivity. cbn [as_index]. now destruct (num_to_usize n).
+Qed.
+
+Lemma push_all_spec args : forall s vs,
+  stack_ok s -> top_is s vs ->
+  exists s1, push_all args s = ROk tt s1 /\ stack_ok s1 /\ top_is s1 (rev args ++ vs) /\
+             st s1 = st s /\ hp s1 = hp s /\ sp s1 = sp s + len args.
+Proof.
+  induction args as [|a args IH]; intros s vs Hok Ht.
+  - exists s. cbn [push_all rev app].
+    split; [reflexivity|]. split; [exact Hok|]. split; [exact Ht|].
+    split; [reflexivity|]. split; [reflexivity|]. unfold len; cbn [length N.of_nat]; lia.
+  - destruct (push_spec s a vs Hok Ht) as (s1 & Hp & Hok1 & Ht1 & Hst & Hhp & Hsp).
+    destruct (IH s1 (a :: vs) Hok1 Ht1) as (s2 & Hp2 & Hok2 & Ht2 & Hst2 & Hhp2 & Hsp2).
+    exists s2. cbn [push_all]. rewrite (bindM_ok _ _ _ _ _ Hp).
+    split; [exact Hp2|]. split; [exact Hok2|].
+    split; [cbn [rev]; now rewrite <- app_assoc|].
+    split; [congruence|]. split; [congruence|].
+    rewrite Hsp2, Hsp, !len_length. cbn [length]. lia.
+Qed.
+
+(* entering a builtin called with [args]: the state the body runs in *)
+Lemma call_enter f args s :
+  stack_ok s ->
+  exists s1, run_builtin f args s = f s1 /\ top_is s1 (VArgc (len args) :: rev args) /\
+             st s1 = st s /\ hp s1 = hp s /\ sp s1 = sp s + len args + 1.
+Proof.
+  intro Hok.
+  destruct (push_all_spec args s [] Hok (top_is_nil s)) as (s1 & Hp & Hok1 & Ht1 & Hst & Hhp & Hsp).
+  destruct (push_spec s1 (VArgc (len args)) _ Hok1 Ht1) as (s2 & Hp2 & Hok2 & Ht2 & Hst2 & Hhp2 & Hsp2).
+  exists s2. unfold run_builtin. rewrite (bindM_ok _ _ _ _ _ Hp), (bindM_ok _ _ _ _ _ Hp2).
+  rewrite app_nil_r in Ht2.
+  split; [reflexivity|]. split; [exact Ht2|]. split; [congruence|]. split; [congruence|]. lia.
+Qed.
+
+(* ============================================= the VM level: the procedures *)
+(* outcome of a call made in state [s]: a value and the new Rc store, the heap and the
+   stack pointer as before the call; or an error with store and heap untouched *)
+Definition returns (r : res vcell) (s : vm) (v : vcell) (x : store) : Prop :=
+  exists s', r = ROk v s' /\ st s' = x /\ hp s' = hp s /\ sp s' = sp s.
+Definition fails (r : res vcell) (s : vm) : Prop :=
+  exists e msg s', r = RErr e msg s' /\ st s' = st s /\ hp s' = hp s.
+Definition no_panic (r : res vcell) : Prop :=
+  (exists v s', r = ROk v s') \/ (exists e msg s', r = RErr e msg s').
+
+Lemma returns_no_panic r s v x : returns r s v x -> no_panic r.
+Proof. intros (s' & -> & _). left; eauto. Qed.
+Lemma fails_no_panic r s : fails r s -> no_panic r.
+Proof. intros (e & msg & s' & -> & _). right; eauto. Qed.
+
+Lemma pop_argc_ok s n vs mn mx :
+  top_is s (VArgc n :: vs) -> mn <= n -> (forall m, mx = Some m -> n <= m) ->
+  pop_argc mn mx s = ROk n (pop1 s) /\ top_is (pop1 s) vs.
+Proof.
+  intros H H1 H2. destruct (pop_argc_top s n vs mn mx H) as [He Ht]. split; [|exact Ht].
+  rewrite He. replace (n <? mn) with false by (symmetry; apply N.ltb_ge; lia).
+  destruct mx as [m|]; [|reflexivity].
+  pose proof (H2 m eq_refl). replace (m <? n) with false by (symmetry; apply N.ltb_ge; lia). reflexivity.
+Qed.
+
+Lemma pop_argc_bad s n vs mn mx :
+  top_is s (VArgc n :: vs) -> (n < mn \/ exists m, mx = Some m /\ m < n) ->
+  pop_argc mn mx s = RErr E_OTHER [] (pop1 s).
+Proof.
+  intros H Hb. destruct (pop_argc_top s n vs mn mx H) as [He _]. rewrite He.
+  destruct Hb as [Hb|(m & -> & Hb)].
+  - now replace (n <? mn) with true by (symmetry; apply N.ltb_lt; lia).
+  - replace (m <? n) with true by (symmetry; apply N.ltb_lt; lia). now rewrite orb_true_r.
+Qed.
+
+Lemma str_get_ok s sid t : tget (strs (st s)) sid = Some t -> str_get sid s = ROk t s.
+Proof. intro H. unfold str_get. now rewrite H. Qed.
+
+(* projections through the state updates used below *)
+Lemma st_pop1 s : st (pop1 s) = st s. Proof. reflexivity. Qed.
+Lemma hp_pop1 s : hp (pop1 s) = hp s. Proof. reflexivity. Qed.
+Lemma sp_pop1 s : sp (pop1 s) = sp s - 1. Proof. reflexivity. Qed.
+
+Ltac reduce_len :=
+  cbn [len length N.of_nat Pos.of_succ_nat Pos.succ rev app] in *.
+
+(* enter the body of a builtin called on the listed arguments *)
+Ltac enter Hok s1 :=
+  let Hrun := fresh "Hrun" in
+  match goal with
+  | |- context [run_builtin ?f ?args ?s] =>
+      destruct (call_enter f args s Hok) as (s1 & Hrun & ?Htop & ?Hst1 & ?Hhp1 & ?Hsp1);
+      rewrite Hrun; clear Hrun; reduce_len
+  end.
+
+(* resolve the str_get at the head of the goal, knowing the string in the initial state *)
+Ltac get_str sid t :=
+  match goal with
+  | |- context [bindM (str_get sid) ?k ?s0] =>
+      let H := fresh "Hget" in
+      assert (H : str_get sid s0 = ROk t s0) by (apply str_get_ok; rewrite ?st_pop1; congruence);
+      rewrite (bindM_ok _ _ _ _ _ H); clear H
+  end.
+
+Ltac close_fail :=
+  do 3 eexists; split; [reflexivity|]; rewrite ?st_pop1, ?hp_pop1; split; congruence.
+
+Ltac close_ret :=
+  eexists; split; [reflexivity|];
+  rewrite ?st_pop1, ?hp_pop1, ?sp_pop1; repeat split; try congruence; try lia.
+
+(* string-ref *)
+Theorem string_ref_refines s sid t iv :
+  stack_ok s -> tget (strs (st s)) sid = Some t -> imm iv ->
+  let r := run_builtin string_ref [VStr sid; iv] s in
+  match as_index iv with
+  | Some i =>
+      match spec_ref t i with
+      | Some c => returns r s (VChar c) (st s)
+      | None => fails r s
+      end
+  | None => fails r s
+  end.
+Proof.
+  intros Hok Hs Hi r. subst r. enter Hok s1. unfold string_ref.
+  destruct (pop_argc_ok _ _ _ 2 (Some 2) Htop) as [E1 T1]; [lia | intros m [= <-]; lia |].
+  rewrite (bindM_ok _ _ _ _ _ E1).
+  destruct (pop_index_top _ _ _ T1 Hi) as [E2 T2].
+  destruct (as_index iv) as [i|]; cbn [opt_res] in E2.
+  2:{ rewrite (bindM_err _ _ _ _ _ _ E2). close_fail. }
+  rewrite (bindM_ok _ _ _ _ _ E2).
+  destruct (pop_string_top _ _ _ T2 I) as [E3 T3]. cbn [as_string opt_res] in E3.
+  rewrite (bindM_ok _ _ _ _ _ E3).
+  get_str sid t.
+  rewrite string_ref_core_spec.
+  destruct (spec_ref t i) as [c|]; cbn [lift bindM ret].
+  - close_ret.
+  - close_fail.
+Qed.
